@@ -311,6 +311,12 @@ theorem recursive_skipping_unbounded (dl : Dialect) (hook : Hook) :
   · rw [iterate_recs, iterate_recs]
   · rw [iterate_getlines, iterate_getlines]
 
+/-- **parse_line_steps.**  The loop of `parse_line` (`for (pos = 0; pos < length && line[pos]; ++pos)`, with the extra
+    `++pos` of a doubled quote) runs at most `line.length` times, whatever the line, the dialect and the quoting state:
+    `pos` strictly increases towards `length`. -/
+theorem parse_line_steps (dl : Dialect) (line : Str) : parseSteps dl line false [] ≤ line.length :=
+  parseSteps_le dl line false []
+
 /-- non-vacuity: the fixed model does return dataframes (`a,b / c,d` with labels in column 0) -/
 example : ∃ df : DF Nat, readCsv { guards := true }
     ({ isNum := fun _ => false, stod := fun _ => none, stoi := fun _ => none } : NumOracle Nat)
